@@ -142,6 +142,24 @@ def gen_row(rng, L, prev_text=None):
     return spec
 
 
+def shifted(rng, row):
+    """the same text and the same sequence of formats with one run boundary moved by a character
+    (a highlight or block cursor moving over unchanged text)"""
+    if not isinstance(row, list) or len(row) < 2:
+        return None
+    i = rng.randrange(len(row) - 1)
+    a, b = row[i], row[i + 1]
+    if a[1] == b[1]:
+        return None
+    if len(a[0]) > 1 and rng.random() < .5:
+        new = [[a[0][:-1], a[1]], [a[0][-1] + b[0], b[1]]]
+    elif len(b[0]) > 1:
+        new = [[a[0] + b[0][0], a[1]], [b[0][1:], b[1]]]
+    else:
+        return None
+    return row[:i] + new + row[i + 2:]
+
+
 def text_of_row(r):
     return r if isinstance(r, str) else "".join(t for t, _ in r)
 
@@ -157,7 +175,9 @@ def gen_history(rng, sizes, steps, start=None):
             rows, cols = rng.choice(cand)
             case["steps"].append({"op": "resize", "rows": rows, "cols": cols,
                                   "junk_seed": rng.randrange(10 ** 6)})
-            prev = None
+            # rows of the frame drawn before the resize may well be drawn again after it
+            if prev is not None and rng.random() < .5:
+                prev = None
             continue
         h = max(0, rng.choice([0, 1, rows - 1, rows, rows, rows + 1, rows + 3, rng.randint(0, rows + 2)]))
         arr = []
@@ -168,6 +188,11 @@ def gen_history(rng, sizes, steps, start=None):
             if prev and i < len(prev) and rng.random() < .15:
                 arr.append(prev[i])            # unchanged row: the cache path
                 continue
+            if prev and i < len(prev) and rng.random() < .15:
+                sh = shifted(rng, prev[i])
+                if sh is not None:
+                    arr.append(sh)
+                    continue
             L = max(0, rng.choice([0, 1, cols - 1, cols, cols, cols + 1, cols + 4, rng.randint(0, cols + 1)]))
             arr.append(gen_row(rng, L))
         step = {"op": "render", "array": arr, "as": rng.choice(["list", "list", "fsarray"]),
